@@ -19,7 +19,9 @@ are each decided on the code of the current tree, for ALL paths:
       segment exists, and yields the first resp. last unyielded one — so any interleaving yields every "/"-separated piece once, in order.
   Derived queries: first() = segment_at(first_segment_offset()).0, last() = previous_segment_from(len+1).0, both None iff is_empty();
       file_name() = segments().next_back() filtered by non-emptiness; segment_count() = segments().count(); the URI and IRI wrappers are twins.
-Not decided: parent / parent_or_empty / directory (directory is covered by C16), the length reported by the normalized-segment iterator
+  parent() (Engine S, mirror mode, spec parent-text): None for "", "/" and a single relative segment, the root for "/x", "/./" for "//x", otherwise the
+      text before the LAST "/"; parent_or_empty() = parent() or the empty path of the same kind.
+Not decided: directory (covered by C16), the length reported by the normalized-segment iterator
 (C09's undecided sequence), and that joining the pieces reproduces the path text (follows from Lemma F/B spans tiling the path, not mechanised)."""
 import re
 
@@ -445,6 +447,17 @@ def main(run):
         t = terms.Terms(b).ret() if b else None
         if not (t and t[0] == 'call' and t[1].endswith('::count') and 'segments' in str(t[2][0][1])):
             run.violation(f'derived|{fn}', f'{fn} is not segments().count()')
+    # ---------------- parent / parent_or_empty (Engine S: backward scan in mirror mode; the fallback with parent() and the kind answering every way)
+    for r in (segscan.run_parent(P), segscan.run_parent_or_empty(P)):
+        run.count('parent_obligations')
+        for k in tot:
+            tot[k] += r['stats'].get(k, 0)
+        for kind, msg, where, wit in r['findings']:
+            loc = f'{where[1]}:{where[2]} {where[0]}' if where else r['fn']
+            run.violation(f'parent|{r["key"]}|{kind}|{msg[:60]}', f'{loc}: {r["what"]} — {msg}' + (f'; e.g. on the path {wit!r}' if wit else ''))
+        if not r['findings']:
+            run.sample({'lemma': r['key'], 'function': r['fn'], 'statement': r['what'], 'abstract_states': r['stats'].get('configs'), 'returns_checked': r['stats'].get('returns'), 'verdict': 'holds'})
+    run.floor('parent_obligations', 2, 'parent / parent_or_empty')
     npairs = sibling.check(run, P, 'C12', only=lambda n: re.search(r'path::(Path|PathBuf)::(segments|segment_count|first|last|file_name|is_empty|is_absolute|is_relative)$', n) is not None)
     return run.finish('model_checking', {
         'states': tot['configs'],
@@ -454,4 +467,4 @@ def main(run):
                        f'{run.cov.get("step_paths")} CFG paths of next / next_back match the step shape; {run.cov.get("wiring_rules")} wiring rules and {run.cov.get("derived_queries")} derived-query rules; the induction over interleavings is the argument of DESIGN.md §10.7',
         'exhaustive': True,
     }, assumptions=['C01: a valid path contains neither "?" nor "#"', 'the induction step (DESIGN.md §10.7) is a pen-and-paper argument over the three mechanically checked ingredients',
-                    'parent / parent_or_empty and normalized_segments().len() are NOT covered', 'traces_validated_against_impl is 0: static analysis only'])
+                    'normalized_segments().len() is NOT covered (a function of the run-time stack)', 'traces_validated_against_impl is 0: static analysis only'])
